@@ -23,7 +23,7 @@ class AbsHeap:
 
     # ---- reachability as the collector is entitled to see it
     def reachable(self):
-        roots = set(v for v in self.stk.values() if v) | set(self.tls.values()) | \
+        roots = set(v for v in self.stk.values() if v and v in self.alive) | set(v for v in self.tls.values() if v in self.alive) | \
             {o for o in self.alive if self.mode[o] == "root"}
         seen, todo = set(roots), list(roots)
         while todo:
@@ -31,15 +31,20 @@ class AbsHeap:
             if self.mode.get(o) == "raw":
                 continue                      # raw objects are not traced
             for d in self.edges.get(o, {}).values():
-                if d not in seen:
+                if d not in seen and d in self.alive:
                     seen.add(d)
                     todo.append(d)
         return seen
 
     def collection_point(self):
-        r = self.reachable()
-        for o in list(self.alive):
-            if self.mode[o] != "raw" and o not in r:
+        # to a fixpoint: an object that dies with its owner (a Box that became unreachable) may have been the only path to
+        # others, which a later collection - possibly within the same allocating call - takes as well
+        while True:
+            r = self.reachable()
+            gone = [o for o in list(self.alive) if self.mode[o] != "raw" and o not in r]
+            if not gone:
+                break
+            for o in gone:
                 self._forget(o)
 
     def _forget(self, o):
